@@ -13,7 +13,7 @@ RULE = ('every atom text of length <= 3 [thorough: 4] over the 21 characters {a 
         'the lexer requires it, also quoted when it does not), and every term of depth <= 2 over {6 atom texts, 0 7 123, '
         'f/1, g/2, zero-argument compounds f() and a quoted one, [] [t] [t,u] [t|V] [t,u|V], _, named variables} - and pairs of literals that print alike (a compound or list next to the quoted atom spelling it) - each literal compiled as a fact argument, as a head '
         'argument of a rule, and as a body-goal argument, each batch also compiled from a file holding the same text (identical code required), then (1) read back through a query: structure equals the '
-        'literal\'s term and to_python equals the reference value (name / int / list / (name,[args]) / None); (2) the '
+        'literal\'s term and to_python equals the reference value (name / int / list / (name,[args]) / None) - every returned value is then changed in place by the caller (all lists inside appended to), which no later conversion on the same engine may show; (2) the '
         'same term built with atom/functor/listpair/makelist through the API is used as query argument: exactly one '
         'answer, and the compiled literal read back unifies with it; (3) atoms: yp.atom(n) is yp.atom(n); atoms and whole terms built on two '
         'engines unify with each other and with each other\'s compiled literals and dynamic facts, also on an engine that was cleared before loading; (4) every _ is a distinct variable. states = distinct (literal class, '
@@ -211,6 +211,17 @@ def check_cross(yp, yp2, ypc, j, term, text):
     return None
 
 
+def scribble(v):
+    """what a caller may do with a value it was handed: every list inside is changed in place"""
+    if isinstance(v, list):
+        for x in v:
+            scribble(x)
+        v.append('scribbled by the caller')
+    elif isinstance(v, tuple):
+        for x in v:
+            scribble(x)
+
+
 def check_literal(yp, yp2, j, cls, term, text):
     want = canon([term])
     lit = text if text is not None else show_term(term)
@@ -233,6 +244,10 @@ def check_literal(yp, yp2, j, cls, term, text):
             return ('violation', 'denotes-other-term:' + pred, 'literal %r as %s reads back as %r, expected %r' % (lit, where, rows[0][0], want), None, steps)
         if has_py and rows[0][1] != want_py:
             return ('violation', 'to_python-differs:' + pred, 'literal %r as %s: to_python gives %r, expected %r' % (lit, where, rows[0][1], want_py), None, steps)
+        if has_py:
+            # the value belongs to the caller: changing it in place must not show in any later conversion
+            # (of this literal by the next predicate, of the following literals on the same engine)
+            scribble(rows[0][1])
     # API-built term as query argument
     for builder in (impl.to_engine, to_engine_makelist):
         vm = {}
